@@ -433,3 +433,17 @@ def sum_shift_lemma(kind):
         return z3.And(ln >= 0, z3.ForAll([j], z3.Implies(z3.And(j >= 0, j < ln), z3.Select(B, j) == z3.Select(A_, off + j))))
     return Lemma(f"sum_shift_{kind}", params, hyps,
                  lambda A_, B, off, ln, n: f(B, z3.IntVal(0), n) == f(A_, off, off + n), lambda A_, B, off, ln: ln)
+
+
+def sum_add_lemma(kind):
+    """C[j] = A[j] + B[j] for j < n: sumr(C, 0, n) = sumr(A, 0, n) + sumr(B, 0, n)"""
+    from .tarr import sum_fn
+    s, A = _wsort(kind)
+    params = [("A", A), ("B", A), ("C", A), ("len", z3.IntSort())]
+    f = sum_fn(kind)
+
+    def hyps(A_, B, C, ln):
+        j = z3.Int("%sa_j")
+        return z3.And(ln >= 0, z3.ForAll([j], z3.Implies(z3.And(j >= 0, j < ln), z3.Select(C, j) == z3.Select(A_, j) + z3.Select(B, j))))
+    return Lemma(f"sum_add_{kind}", params, hyps,
+                 lambda A_, B, C, ln, n: f(C, z3.IntVal(0), n) == f(A_, z3.IntVal(0), n) + f(B, z3.IntVal(0), n), lambda A_, B, C, ln: ln)
